@@ -668,6 +668,11 @@ func GenSTL(r *prng.R, idx int) Doc {
 		in := [4]byte{0, byte(t / 60 % 60), byte(t % 60), byte(r.Intn(fps))}
 		out := [4]byte{0, byte((t + d) / 60 % 60), byte((t + d) % 60), byte(r.Intn(fps))}
 		t += d + r.Intn(3)
+		if r.Bool(0.12) && len(text) > 8 { // a subtitle spread over two blocks: extension block first, then the last block
+			blocks = append(blocks, TTI(i, 0x00, in, out, byte(r.Range(1, 23)), byte(r.Intn(4)), text[:len(text)/2]))
+			text = text[len(text)/2:]
+			cues++
+		}
 		blocks = append(blocks, TTI(i, 0xff, in, out, byte(r.Range(1, 23)), byte(r.Intn(4)), text))
 		cues++
 	}
@@ -730,7 +735,16 @@ func Fixed() []Doc {
 <tt xml:lang="en" xmlns="http://www.w3.org/ns/ttml"><head><styling><style xml:id="s1" tts:color="white" xmlns:tts="http://www.w3.org/ns/ttml#styling"/></styling></head>
 <body><div><p begin="00:00:01.000" end="00:00:02.000" style="s1">sixteen 😀 smile</p><p begin="00:00:03.000" end="00:00:04.000">bits é中🎵</p></div></body></tt>`
 	t := Doc{Name: "fixed-ttml", Format: "ttml", Data: []byte(ttml), Cues: 2, Gen: true}
+	// STL: the very last character is a floating diacritic with nothing behind it (pending state at the end of the
+	// parse); one subtitle is spread over an extension block and a last block
+	stlBlocks := [][]byte{
+		TTI(0, 0xff, [4]byte{0, 0, 1, 0}, [4]byte{0, 0, 2, 0}, 20, 2, []byte{0x0b, 0x0b, 'o', 'n', 'e'}),
+		TTI(1, 0x00, [4]byte{0, 0, 3, 0}, [4]byte{0, 0, 4, 0}, 20, 2, []byte{0x0b, 0x0b, 'f', 'i', 'r', 's', 't', ' ', 'h', 'a', 'l', 'f'}),
+		TTI(1, 0xff, [4]byte{0, 0, 3, 0}, [4]byte{0, 0, 4, 0}, 20, 2, []byte{0x0b, 0x0b, 's', 'e', 'c', 'o', 'n', 'd', ' ', 'h', 'a', 'l', 'f'}),
+		TTI(2, 0xff, [4]byte{0, 0, 5, 0}, [4]byte{0, 0, 6, 0}, 20, 2, []byte{0x0b, 0x0b, 'd', 'a', 'n', 'g', 'l', 'i', 'n', 'g', ' ', 0xc2}),
+	}
 	return []Doc{
+		{Name: "fixed-stl-dangling-accent", Format: "stl", Data: BuildSTL(25, '1', "fixed", "00000000", stlBlocks), Cues: 4, Gen: true},
 		{Name: "fixed-vtt-headers", Format: "vtt", Data: []byte(vtt), Cues: 3, Gen: true},
 		SSATwoFormats(false), SSATwoFormats(true),
 		UTF16(t, false), UTF16(t, true),
